@@ -252,6 +252,8 @@ type kbJob struct {
 	Seed       int64             `json:"seed"`
 	Backend    string            `json:"backend"` // mem | lazy
 	Passes     map[string]string `json:"passes"`
+	// optional: one binding of the passphrase names per behaviour (overrides Passes)
+	PassesBy   []map[string]string `json:"passes_by,omitempty"`
 	NKnown     int               `json:"nknown"`
 	NK         int               `json:"nk"`
 	Probe      bool              `json:"probe"`
@@ -372,7 +374,11 @@ func junkArmor(seed int64, b, i int, some string) string {
 
 func (w *world) run(b int, beh []step) (outs []stepOut) {
 	job := w.job
-	pass := func(p string) string { return job.Passes[p] }
+	passes := job.Passes
+	if b < len(job.PassesBy) && job.PassesBy[b] != nil {
+		passes = job.PassesBy[b]
+	}
+	pass := func(p string) string { return passes[p] }
 	msg := secret(job.Seed, "kbmsg", b)
 	for i, st := range beh {
 		l := st.L
@@ -497,7 +503,7 @@ func (w *world) run(b int, beh []step) (outs []stepOut) {
 				continue
 			}
 			m := map[string]bool{}
-			for name, p := range job.Passes {
+			for name, p := range passes {
 				priv, err := w.kb.ExportPrivateKeyObject(w.addr[id], p)
 				m[name] = err == nil && bytes.Equal(priv.PublicKey().Address(), w.addr[id])
 			}
